@@ -64,11 +64,31 @@ func (m *mat) qual(p *types.Package) string {
 func (m *mat) typeStr(T types.Type) string { return types.TypeString(T, m.qual) }
 
 func (m *mat) cells(obj, off *big.Int, n int) []*big.Int {
-	arr := Select(m.m0, IntB(obj))
+	v, _ := m.cellsT(obj, off, n)
+	return v
+}
+
+// needConstraint: the model is not replayable as it stands, but would be with this extra
+// constraint (e.g. a pointer stored in memory must point at the start of its object).
+type needConstraint struct{ t *Term }
+
+func (m *mat) cellsT(obj, off *big.Int, n int) ([]*big.Int, []*Term) {
+	return m.cellsSym(IntB(obj), IntB(off), n)
+}
+
+// cellsSym reads cells through symbolic address terms, so that constraints derived from
+// what is found there apply to every model, not just to this model's object ids.
+func (m *mat) cellsSym(obj, off *Term, n int) ([]*big.Int, []*Term) {
+	arr := Select(m.m0, obj)
 	ts := make([]*Term, n)
 	for i := 0; i < n; i++ {
-		ts[i] = Select(arr, IntB(new(big.Int).Add(off, big.NewInt(int64(i)))))
+		ts[i] = Select(arr, Add(off, Int(int64(i))))
 	}
+	return m.cellsOf(ts), ts
+}
+
+func (m *mat) cellsOf(ts []*Term) []*big.Int {
+	n := len(ts)
 	out := make([]*big.Int, n)
 	// batch to keep the dialogue short
 	for i := 0; i < n; i += 512 {
@@ -164,7 +184,7 @@ func splitTopSexps(s string) []string {
 
 const maxReplayElems = 1 << 16
 
-func (m *mat) discover(T types.Type, lv []*big.Int) {
+func (m *mat) discover(T types.Type, lv []*big.Int, src []*Term) {
 	switch t := T.Underlying().(type) {
 	case *types.Pointer:
 		obj, off := lv[0], lv[1]
@@ -172,11 +192,18 @@ func (m *mat) discover(T types.Type, lv []*big.Int) {
 			return
 		}
 		if off.Sign() != 0 {
+			if src != nil && src[1].IntConst() == nil {
+				panic(needConstraint{Eq(src[1], Int(0))})
+			}
 			m.fail("interior pointer in model (object %s offset %s)", obj, off)
 		}
 		id := obj.String()
 		if o := m.objs[id]; o != nil {
 			if o.kind != "ptr" || !types.Identical(o.elem, t.Elem()) {
+				if src != nil && src[0].IntConst() == nil {
+					// ask for a different object: ids of differently typed objects must differ
+					panic(needConstraint{Ne(src[0], IntB(obj))})
+				}
 				m.fail("object %s viewed with two different types", id)
 			}
 			return
@@ -188,7 +215,14 @@ func (m *mat) discover(T types.Type, lv []*big.Int) {
 		if n > 20000 {
 			m.fail("pointee too large")
 		}
-		m.discover(t.Elem(), m.cells(obj, big.NewInt(0), n))
+		var cv []*big.Int
+		var ct []*Term
+		if src != nil {
+			cv, ct = m.cellsSym(src[0], Int(0), n)
+		} else {
+			cv, ct = m.cellsT(obj, big.NewInt(0), n)
+		}
+		m.discover(t.Elem(), cv, ct)
 	case *types.Slice:
 		obj, off, ln, cp := lv[0], lv[1], lv[2], lv[3]
 		if obj.Sign() == 0 {
@@ -198,10 +232,16 @@ func (m *mat) discover(T types.Type, lv []*big.Int) {
 		if es == 0 {
 			return
 		}
-		if new(big.Int).Mod(off, big.NewInt(es)).Sign() != 0 {
+		if new(big.Int).Mod(off, big.NewInt(es)).Sign() != 0 || (off.IsInt64() && off.Int64()/es > 4096) {
+			if src != nil && src[1].IntConst() == nil {
+				panic(needConstraint{Eq(src[1], Int(0))})
+			}
 			m.fail("misaligned slice in model")
 		}
 		if !cp.IsInt64() || cp.Int64() > maxReplayElems || !off.IsInt64() || off.Int64()/es > maxReplayElems {
+			if src != nil && src[3].IntConst() == nil {
+				panic(needConstraint{And(Le(src[3], Int(4096)), Le(src[2], Int(1024)))})
+			}
 			m.fail("slice too large to replay (cap %s)", cp)
 		}
 		start := int(off.Int64() / es)
@@ -213,6 +253,9 @@ func (m *mat) discover(T types.Type, lv []*big.Int) {
 			m.objs[id] = o
 			m.order = append(m.order, o)
 		} else if o.kind != "slice" || !types.Identical(o.elem, t.Elem()) {
+			if src != nil && src[0].IntConst() == nil {
+				panic(needConstraint{Ne(src[0], IntB(obj))})
+			}
 			m.fail("object %s viewed with two different types", id)
 		}
 		if ext > o.extent {
@@ -225,16 +268,41 @@ func (m *mat) discover(T types.Type, lv []*big.Int) {
 			}
 			m.busy[key] = true
 			n := int(ln.Int64())
-			cs := m.cells(obj, off, n*int(es))
+			if n > 6 && src != nil && src[2].IntConst() == nil {
+				panic(needConstraint{Le(src[2], Int(6))})
+			}
+			var cs []*big.Int
+			var ct []*Term
+			if src != nil {
+				cs, ct = m.cellsSym(src[0], src[1], n*int(es))
+			} else {
+				cs, ct = m.cellsT(obj, off, n*int(es))
+			}
+			if _, isPtr := t.Elem().Underlying().(*types.Pointer); isPtr {
+				// all element pointers canonical at once
+				var need []*Term
+				for i := 0; i < n; i++ {
+					if cs[i*int(es)].Sign() != 0 && cs[i*int(es)+1].Sign() != 0 {
+						need = append(need, Eq(ct[i*int(es)+1], Int(0)))
+					}
+				}
+				if len(need) > 0 {
+					panic(needConstraint{And(need...)})
+				}
+			}
 			for i := 0; i < n; i++ {
-				m.discover(t.Elem(), cs[i*int(es):(i+1)*int(es)])
+				m.discover(t.Elem(), cs[i*int(es):(i+1)*int(es)], ct[i*int(es):(i+1)*int(es)])
 			}
 		}
 	case *types.Struct:
 		off := 0
 		for i := 0; i < t.NumFields(); i++ {
 			n := sizeOf(t.Field(i).Type())
-			m.discover(t.Field(i).Type(), lv[off:off+n])
+			var sub []*Term
+			if src != nil {
+				sub = src[off : off+n]
+			}
+			m.discover(t.Field(i).Type(), lv[off:off+n], sub)
 			off += n
 		}
 	case *types.Array:
@@ -243,7 +311,11 @@ func (m *mat) discover(T types.Type, lv []*big.Int) {
 		}
 		es := sizeOf(t.Elem())
 		for i := 0; i < int(t.Len()); i++ {
-			m.discover(t.Elem(), lv[i*es:(i+1)*es])
+			var sub []*Term
+			if src != nil {
+				sub = src[i*es : (i+1)*es]
+			}
+			m.discover(t.Elem(), lv[i*es:(i+1)*es], sub)
 		}
 	}
 }
@@ -396,7 +468,7 @@ func (m *mat) buildInputs(ri *ReplayInfo) (decls []string, args []string) {
 			lv[i] = v
 		}
 		plv = append(plv, lv)
-		m.discover(p.T, lv)
+		m.discover(p.T, lv, p.L)
 	}
 	// discovery may grow m.order while iterating contents
 	for _, o := range m.order {
@@ -808,6 +880,8 @@ func genReplayTest(eng *Eng, ri *ReplayInfo, ms *ModelSession) (src string, err 
 			switch x := r.(type) {
 			case unreplayable:
 				err = fmt.Errorf("unreplayable: %s", string(x))
+			case needConstraint:
+				err = constraintErr{x.t}
 			default:
 				panic(r)
 			}
@@ -908,6 +982,18 @@ func genReplayTest(eng *Eng, ri *ReplayInfo, ms *ModelSession) (src string, err 
 	}
 	sb.WriteString("\t}\n\tout[\"clauses\"] = clauses\n\tb, _ := json.Marshal(out)\n\tfmt.Printf(\"GOCV-REPLAY %s\\n\", b)\n}\n")
 	return sb.String(), nil
+}
+
+type constraintErr struct{ t *Term }
+
+func (c constraintErr) Error() string { return "model needs constraint " + c.t.String() }
+
+// Constrain adds an assertion to the session and re-checks.
+func (ms *ModelSession) Constrain(t *Term) (string, error) {
+	ms.cache = map[string]string{}
+	fmt.Fprintf(ms.in, "(assert %s)\n(check-sat)\n", t)
+	line, err := ms.readSexpOrWord()
+	return strings.TrimSpace(line), err
 }
 
 type replayOutcome struct {
@@ -1038,7 +1124,18 @@ func replayFromOb(cf *checkFlags, eng *Eng, ob *Obligation, rp map[string]interf
 		return false, "no model within replayable sizes: solver answered " + verdict
 	}
 	defer ms.Close()
-	src, err := genReplayTest(eng, ri, ms)
+	var src string
+	for attempt := 0; ; attempt++ {
+		src, err = genReplayTest(eng, ri, ms)
+		if ce, ok := err.(constraintErr); ok && attempt < 40 {
+			v, e2 := ms.Constrain(ce.t)
+			if e2 != nil || v != "sat" {
+				return false, "no model with canonical pointers: solver answered " + v
+			}
+			continue
+		}
+		break
+	}
 	if err != nil {
 		return false, err.Error()
 	}
